@@ -1132,3 +1132,68 @@ func reachesUnkilled(from, to ssa.Instruction, kills []ssa.Instruction) bool {
 	}
 	return false
 }
+
+// calleeCHA resolves like callee, and additionally resolves an interface
+// method call when the interface is declared in the repository and exactly one
+// repository type implements it (class-hierarchy analysis restricted to repo types).
+func (m *Module) calleeCHA(c *ssa.CallCommon) *ssa.Function {
+	if f := m.callee(c); f != nil {
+		return f
+	}
+	if !c.IsInvoke() {
+		return nil
+	}
+	it := c.Value.Type()
+	n, ok := types.Unalias(it).(*types.Named)
+	if !ok || n.Obj().Pkg() == nil || !strings.HasPrefix(n.Obj().Pkg().Path(), modPath) {
+		return nil
+	}
+	iface, ok := n.Underlying().(*types.Interface)
+	if !ok {
+		return nil
+	}
+	if m.chaMemo == nil {
+		m.chaMemo = map[string]*ssa.Function{}
+	}
+	key := n.String() + "." + c.Method.Name()
+	if f, ok := m.chaMemo[key]; ok {
+		return f
+	}
+	var found []*ssa.Function
+	for path, sp := range m.SSA {
+		if !strings.HasPrefix(path, modPath) {
+			continue
+		}
+		sc := sp.Pkg.Scope()
+		for _, name := range sc.Names() {
+			tn, ok := sc.Lookup(name).(*types.TypeName)
+			if !ok || tn.IsAlias() {
+				continue
+			}
+			nt, ok := tn.Type().(*types.Named)
+			if !ok {
+				continue
+			}
+			if _, isIface := nt.Underlying().(*types.Interface); isIface {
+				continue
+			}
+			for _, t := range []types.Type{nt, types.NewPointer(nt)} {
+				if types.Implements(t, iface) {
+					sel := m.Prog.MethodSets.MethodSet(t).Lookup(c.Method.Pkg(), c.Method.Name())
+					if sel != nil {
+						if fn := m.Prog.MethodValue(sel); fn != nil {
+							found = append(found, fn)
+						}
+					}
+					break
+				}
+			}
+		}
+	}
+	var res *ssa.Function
+	if len(found) == 1 {
+		res = found[0]
+	}
+	m.chaMemo[key] = res
+	return res
+}
